@@ -229,6 +229,8 @@ pub struct Def {
     /// rendered as separate attributes when `logos_split` is true
     pub logos_order: Vec<usize>,
     pub logos_split: bool,
+    /// further raw items of the enum-level #[logos(...)] attribute (e.g. `crate = ::logos`)
+    pub extra_logos_items: Vec<String>,
 }
 
 impl Def {
@@ -236,7 +238,7 @@ impl Def {
         Def {
             name: name.to_string(), family: family.to_string(), utf8, utf8_explicit: false,
             subpats: vec![], pats: vec![], variants: vec![], error: ErrKind::Unit, logos_order: vec![],
-            logos_split: false,
+            logos_split: false, extra_logos_items: vec![],
         }
     }
 
@@ -324,6 +326,7 @@ impl Def {
         if self.has_callbacks() {
             items.push("extras = VExtras".to_string());
         }
+        items.extend(self.extra_logos_items.iter().cloned());
         for (name, lit) in &self.subpats {
             items.push(format!("subpattern {} = {}", name, lit.render()));
         }
@@ -396,7 +399,7 @@ impl Def {
             })).collect::<Vec<_>>(),
             "variants": self.variants.iter().map(|v| match v { VarKind::Unit => "unit", VarKind::Slice => "slice", VarKind::U64 => "u64" }).collect::<Vec<_>>(),
             "error": match self.error { ErrKind::Unit => "unit", ErrKind::Custom => "custom", ErrKind::CustomCb => "customcb" },
-            "logos_order": self.logos_order, "logos_split": self.logos_split,
+            "logos_order": self.logos_order, "logos_split": self.logos_split, "extra_logos_items": self.extra_logos_items,
             "source": self.render(),
         })
     }
@@ -432,6 +435,7 @@ impl Def {
             error: match v["error"].as_str().unwrap() { "unit" => ErrKind::Unit, "custom" => ErrKind::Custom, _ => ErrKind::CustomCb },
             logos_order: v["logos_order"].as_array().map(|a| a.iter().map(us).collect()).unwrap_or_default(),
             logos_split: v["logos_split"].as_bool().unwrap_or(false),
+            extra_logos_items: v["extra_logos_items"].as_array().map(|a| a.iter().map(|x| x.as_str().unwrap().to_string()).collect()).unwrap_or_default(),
         }
     }
 }
